@@ -890,7 +890,11 @@ class FileStorage(
             fsync(self._file.fileno())
 
         self._pos = self._nextpos
-        self._index.update(self._tindex)
+        if as_bytes(self._tstatus) != b'u':
+            # The records of an undone transaction (copied from an old
+            # source with its status) are not current: read_index() skips
+            # them, so must the running index and the index we save.
+            self._index.update(self._tindex)
         self._ltid = tid
         self._blob_tpc_finish()
 
